@@ -17,7 +17,7 @@ Definition error_class_of (st : state) (l : loc) : option str :=
        else match get_obj st q with
             | Some o => match o_proto o with Some p => walk f p | None => None end
             | None => None end
-     end) 1000%nat l.
+     end) LABEL_FUEL l.
 
 Definition quote (s : str) : str := [34%N] ++ s ++ [34%N].   (* the OCaml side escapes; this only brackets *)
 
@@ -39,6 +39,7 @@ Inductive rendered :=
 | RErrorClass (trace : list str) (cls : str)
 | RThrownPrim (trace : list str) (ty : str) (text : option str)
 | RThrownObject (trace : list str)
+| REarlyError
 | RFuelOut
 | RUnsup (code : N)
 | RBadInput.
@@ -62,7 +63,7 @@ Definition render (o : outcome) : rendered :=
   end.
 
 Definition run_sexp (fuel : nat) (s : sexp) : rendered :=
-  match d_prog 100000%nat s with
-  | Some P => render (run fuel P)
+  match d_prog LOOP_FUEL s with
+  | Some P => if early_errors P then REarlyError else render (run fuel P)
   | None => RBadInput
   end.
